@@ -58,6 +58,12 @@ type spec struct {
 	links   []linkV
 	linkPos string // top | bottom | both
 	selfTr  string // extra style on the self link's parent (never a transform in the geometry clause)
+	// content of the paint element: "" (text + span "op"), "empty" (no child at all), "empty-span"
+	// (only an empty styled span), "none-child" (only a display:none child)
+	paintContent string
+	// self link <a id=s href="#s">: "" (present), "none" (absent: the skeleton then defines no id of its
+	// own), "no-id" (<a href="#s"> only: dangling unless another element has id s), "no-href" (<a id=s> only)
+	selfLink string
 	zoom    float32
 	base    string
 	tags    map[string]bool
@@ -299,9 +305,25 @@ func (s *spec) build() (string, *model) {
 			inner, label, txt = "", "", ""
 		}
 		if i == s.paint {
-			inner += fmt.Sprintf(`<span data-m=7 style="%s">op</span>%s`, s.iStyle, s.repl)
-			label += "op"
-			m.text[7] = "op"
+			switch s.paintContent {
+			case "":
+				inner += fmt.Sprintf(`<span data-m=7 style="%s">op</span>`, s.iStyle)
+				label += "op"
+				m.text[7] = "op"
+			case "empty":
+				inner, label, txt = "", "", ""
+			case "empty-span":
+				inner, label, txt = fmt.Sprintf(`<span data-m=7 style="%s"></span>`, s.iStyle), "", ""
+			case "none-child":
+				ist := "display:none"
+				if s.iStyle != "" {
+					ist += ";" + s.iStyle
+				}
+				inner, label, txt = fmt.Sprintf(`<span data-m=7 style="%s">op</span>`, ist), "", ""
+			default:
+				panic("unknown paint content " + s.paintContent)
+			}
+			inner += s.repl
 		}
 		idAttr := ""
 		if e.id != "" {
@@ -341,9 +363,22 @@ func (s *spec) build() (string, *model) {
 	// self link: an element that is both an anchor and a link to itself
 	m.selfM = 6
 	m.selfGeo = true
-	fmt.Fprintf(&sb, `<p data-m=5 style="%s">w <a data-m=6 id=s href="#s">st</a></p>`+"\n", s.selfTr)
-	m.ids = append(m.ids, idOcc{"s", 6})
-	m.links = append(m.links, linkOcc{6, "internal", "s"})
+	switch s.selfLink {
+	case "":
+		fmt.Fprintf(&sb, `<p data-m=5 style="%s">w <a data-m=6 id=s href="#s">st</a></p>`+"\n", s.selfTr)
+		m.ids = append(m.ids, idOcc{"s", 6})
+		m.links = append(m.links, linkOcc{6, "internal", "s"})
+	case "none":
+		fmt.Fprintf(&sb, `<p data-m=5 style="%s">w st</p>`+"\n", s.selfTr)
+	case "no-id":
+		fmt.Fprintf(&sb, `<p data-m=5 style="%s">w <a data-m=6 href="#s">st</a></p>`+"\n", s.selfTr)
+		m.links = append(m.links, linkOcc{6, "internal", "s"})
+	case "no-href":
+		fmt.Fprintf(&sb, `<p data-m=5 style="%s">w <a data-m=6 id=s>st</a></p>`+"\n", s.selfTr)
+		m.ids = append(m.ids, idOcc{"s", 6})
+	default:
+		panic("unknown self link " + s.selfLink)
+	}
 	m.text[5], m.text[6] = "w", "st"
 	if s.linkPos == "bottom" || s.linkPos == "both" {
 		s.linkPara(&sb, m, &marker, "q")
@@ -503,6 +538,16 @@ var paintStyles = []styleEntry{
 	sb("display:table;border-collapse:collapse;border:1px dashed", false, "table", "collapsed-borders"),
 	sb("columns:2;column-rule:1px solid", false, "columns"),
 	sb("columns:2;column-rule:3px dashed red", false, "columns", "dashed-rule"),
+	// the paint element as a table part (anonymous table around it): backgrounds of rows, row groups and
+	// columns are clipped to their cells (layoutBackgroundLayer), which an empty part does not have
+	sb("display:table-row;background:red", true, "table-part", "background"),
+	sb("display:table-row-group;background:red", false, "table-part", "background"),
+	sb("display:table-header-group;background:linear-gradient(red,blue)", false, "table-part", "background", "gradient"),
+	sb("display:table-column;background:red", true, "table-part", "background", "part-without-cell"),
+	sb("display:table-column-group;background:red;border:1px solid", false, "table-part", "background", "border", "part-without-cell"),
+	sb("display:table-cell;background:red;border:1px solid", false, "table-part", "background", "border"),
+	sb("display:table-cell;empty-cells:hide;background:red;border:1px dashed;outline:1px solid", false, "table-part", "background", "border", "dashed-side", "outline", "empty-cells-hide"),
+	sb("display:table-caption;background:red;outline:1px dashed", false, "table-part", "background", "outline", "dashed-outline"),
 	se("margin:-5px", false, "negative-margin"),
 	se("padding:3px;border:1px solid", false, "border", "padding"),
 	// border images
@@ -580,6 +625,14 @@ var replMenu = []replEntry{
 	{`<svg width="20" height="10"><rect width="5" height="5" rx="9" fill="url(#g)"/><linearGradient id="g" x2="0"><stop offset="0" stop-color="red"/><stop offset="0" stop-color="blue"/></linearGradient></svg>`, []string{"svg", "svg-inline", "svg-gradient", "coincident-stops"}, false},
 	{`<svg width="20" height="10"><text x="0" y="10" font-family="ahem" font-size="10">59</text></svg>`, []string{"svg", "svg-inline", "svg-text"}, true},
 	{`<svg width="20" height="10"><title>Sv</title><rect width="5" height="5"/></svg>`, []string{"svg", "svg-inline", "svg-title"}, true},
+	// clip paths and masks (the full product is family S)
+	{`<svg width="20" height="10"><clipPath id="cp"><rect width="5" height="5"/></clipPath><rect width="10" height="8" clip-path="url(#cp)"/></svg>`, []string{"svg", "svg-inline", "svg-clip"}, true},
+	{`<svg width="20" height="10"><clipPath id="cp"><rect width="0" height="5"/><path d=""/><g></g></clipPath><rect width="10" height="8" clip-path="url(#cp)"/></svg>`, []string{"svg", "svg-inline", "svg-clip", "clip-builds-no-path"}, true},
+	{`<svg width="20" height="10"><mask id="mk"><circle r="0"/></mask><rect width="10" height="8" mask="url(#mk)"/></svg>`, []string{"svg", "svg-inline", "svg-mask", "clip-builds-no-path"}, false},
+	// tables whose painted part has no cell (the full product is family T)
+	{`<table><tr style="background:red"></tr><tr><td>5</td></tr></table>`, []string{"table", "table-part", "table-part-tr", "background", "part-without-cell"}, true},
+	{`<table><col style="background:red"><col style="background:blue"><tr><td>5</td></tr></table>`, []string{"table", "table-part", "table-part-col2", "background", "part-without-cell"}, false},
+	{`<table style="border-collapse:collapse"><thead style="background:blue;border:1px solid"></thead><tr><td style="border:1px dashed">5</td></tr></table>`, []string{"table", "table-part", "table-part-thead", "background", "part-without-cell", "collapsed-borders"}, false},
 }
 
 var zooms = []float32{0.5, 2}
@@ -799,7 +852,42 @@ func slotsG() []slot {
 		zc = append(zc, choice{name: fmt.Sprint("zoom:", z), tags: []string{"zoom"}, core: true, apply: func(s *spec) { s.zoom = z }})
 	}
 	out = append(out, slot{"zoom", zc})
+
+	// content of the paint element (boxes without content: the styles of the block-style and
+	// inline-style slots then apply to an empty block / an empty inline box / a table part without cell)
+	out = append(out, slot{"paint-content", []choice{
+		{name: "content:empty", tags: []string{"no-content"}, core: true, apply: func(s *spec) { s.paintContent = "empty" }},
+		{name: "content:empty-span", tags: []string{"no-content", "empty-inline"}, core: true, apply: func(s *spec) { s.paintContent = "empty-span" }},
+		{name: "content:display-none-child", tags: []string{"no-content", "display-none-child"}, apply: func(s *spec) { s.paintContent = "none-child" }},
+	}})
+	// the self link is the only id that the skeleton defines on its own: without it (and with the
+	// ids slot at "no-id") the document defines no anchor at all
+	out = append(out, slot{"self-link", []choice{
+		{name: "self:none", tags: []string{"no-self-link"}, core: true, apply: func(s *spec) { s.selfLink = "none" }},
+		{name: "self:no-id", tags: []string{"no-self-link", "self-link-dangling"}, core: true, apply: func(s *spec) { s.selfLink = "no-id" }},
+		{name: "self:no-href", tags: []string{"no-self-link"}, apply: func(s *spec) { s.selfLink = "no-href" }},
+	}})
 	return out
+}
+
+// derive adds the feature tags that depend on several slots at once (computed from the input alone).
+func (s *spec) derive() {
+	if s.paint >= 0 && s.repl == "" && (s.paintContent == "empty" || s.paintContent == "none-child") {
+		for _, d := range []string{"display:table-row", "display:table-header-group", "display:table-footer-group"} {
+			if strings.Contains(s.bStyle, d) {
+				s.tag("part-without-cell")
+			}
+		}
+	}
+	anyID := s.selfLink == "" || s.selfLink == "no-href"
+	for _, e := range s.elems {
+		if e.id != "" && e.kind != "none" {
+			anyID = true
+		}
+	}
+	if !anyID {
+		s.tag("no-anchor-at-all")
+	}
 }
 
 type metaEntry struct {
